@@ -2,6 +2,7 @@ import Tv.GenFin
 import Tv.Thm.C20
 import Tv.Thm.C13Gen
 import Tv.Thm.C11Gen
+import Tv.Thm.C12GenB
 set_option linter.unusedSimpArgs false
 set_option linter.unusedVariables false
 /-!
@@ -165,16 +166,20 @@ theorem half_life_run (corrAt : Nat → Nat → Option Rat) (len : Nat) (mp : Op
           intro n l i
           by_cases ha : clsOf (corrAt (2 ^ i) (mp.getD (len / 2))) = .above
           · have := (clsOf_not_above _).mp ha
+            have h1 : fLe (corrAt (2 ^ i) (mp.getD (len / 2))) ((1 : Rat) / 2) = false ∧
+                (corrAt (2 ^ i) (mp.getD (len / 2))).isNone = false := by
+              simpa [Bool.or_eq_false_iff] using this
             simp only [ha, if_true]
-            simp only [this, Bool.false_eq_true, if_false]
-          · have : (fLe (corrAt (2 ^ i) (mp.getD (len / 2))) ((1 : Rat) / 2) ||
-                (corrAt (2 ^ i) (mp.getD (len / 2))).isNone) = true := by
+            -- either order of the two disjuncts in the source
+            simp only [h1.1, h1.2, Bool.or_false, Bool.or_self, Bool.false_eq_true, if_false]
+          · have : fLe (corrAt (2 ^ i) (mp.getD (len / 2))) ((1 : Rat) / 2) = true ∨
+                (corrAt (2 ^ i) (mp.getD (len / 2))).isNone = true := by
               cases hb : (fLe (corrAt (2 ^ i) (mp.getD (len / 2))) ((1 : Rat) / 2) ||
                 (corrAt (2 ^ i) (mp.getD (len / 2))).isNone)
               · exact absurd ((clsOf_not_above _).mpr hb) ha
-              · rfl
+              · simpa [Bool.or_eq_true] using hb
             simp only [ha, if_false]
-            simp only [this, if_true])
+            rcases this with h | h <;> simp only [h, Bool.true_or, Bool.or_true, if_true])
       with ⟨hd, rfl⟩ | ⟨n', l', i', hd, rfl⟩
     · rw [hd]
     · rw [hd]
@@ -394,6 +399,59 @@ theorem winsorize_from_source_shape (sqrt : Rat → Rat) (m : Method) (p : Optio
   ⟨_, winsorize_eq sqrt xs m p, winsorize_length sqrt m p xs, fun i h => (winsorize_null sqrt m p xs i).mpr h⟩
 
 theorem winsorize_present : GenFin.winsorize.parsed = true := rfl
+
+/-! ## vcorr (tevec/src/agg.rs), regenerated: Spearman = Pearson of the average ranks -/
+
+theorem avgRank_eq_rankOf (xs : List (Option Rat)) (v : Rat) :
+    C12.Spec.avgRank xs false false v = rankOf (valid xs) v := by
+  simp only [C12.Spec.avgRank, C12.Spec.cntLt, C12.Spec.cntEq, rankOf, List.countP_eq_length_filter,
+    Bool.false_eq_true, if_false]
+  ring
+
+/-- the flattened output of the regenerated `vrank(false, false)` is the model's average ranks -/
+theorem vrank_flat {S : C12.Std} (hS : S.Ok) (xs : List (Option Rat)) :
+    ∃ r, GenRank.vrank.run S xs false false = some r ∧ r.map Option.join = C20.vrank xs := by
+  refine ⟨_, C12GenB.vrank_eq S xs false false, ?_⟩
+  rw [C12.vrank_exact hS]
+  simp only [C12GenB.outMap, C12.Spec.rank, C20.vrank, List.map_map]
+  apply List.map_congr_left
+  intro x _
+  cases x with
+  | none => rfl
+  | some v => simp [C12GenB.outToF, avgRank_eq_rankOf]
+
+/-- Pearson arm: the regenerated `vcorr_pearson` with the defaulted `min_periods` -/
+theorem vcorr_pearson_from_source (sqrt : Rat → Rat) (S : C12.Std) (xs ys : List (Option Rat)) (mp : Option Nat) :
+    GenFin.vcorr.run sqrt S xs ys mp .pearson =
+      some (GenAgg.vcorr_pearson.run sqrt xs ys (mp.getD (xs.length / 2))) := rfl
+
+/-- **from source: Spearman correlation is the Pearson correlation of the average ranks** (ties the
+average rank, nulls a null rank), whatever permutation the argsort inside `vrank` produces -/
+theorem vcorr_spearman_from_source (sqrt : Rat → Rat) {S : C12.Std} (hS : S.Ok) (xs ys : List (Option Rat))
+    (mp : Option Nat) :
+    GenFin.vcorr.run sqrt S xs ys mp .spearman =
+      some (GenAgg.vcorr_pearson.run sqrt (C20.vrank xs) (C20.vrank ys) (mp.getD (xs.length / 2))) := by
+  obtain ⟨r1, h1, e1⟩ := vrank_flat hS xs
+  obtain ⟨r2, h2, e2⟩ := vrank_flat hS ys
+  simp only [GenFin.vcorr.run, h1, h2, e1, e2]
+
+/-- … and that value agrees with the textbook Pearson correlation of the two rank vectors -/
+theorem vcorr_spearman_spec (sqrt : Rat → Rat) {S : C12.Std} (hS : S.Ok) (xs ys : List (Option Rat))
+    (mp : Option Nat) :
+    ∃ o, GenFin.vcorr.run sqrt S xs ys mp .spearman = some o ∧
+      GenSim.AgreeW o (C11.Spec.vcorr (mp.getD (xs.length / 2)) (C20.vrank xs) (C20.vrank ys)) :=
+  ⟨_, vcorr_spearman_from_source sqrt hS xs ys mp, C11Gen.vcorr_spec sqrt _ _ _⟩
+
+/-- **from source: Spearman correlation is invariant under strictly increasing transformations of
+either series** -/
+theorem vcorr_spearman_invariant (sqrt : Rat → Rat) {S : C12.Std} (hS : S.Ok) (f g : Rat → Rat)
+    (hf : StrictMono f) (hg : StrictMono g) (xs ys : List (Option Rat)) (mp : Option Nat) :
+    GenFin.vcorr.run sqrt S (xs.map (Option.map f)) (ys.map (Option.map g)) mp .spearman =
+      GenFin.vcorr.run sqrt S xs ys mp .spearman := by
+  rw [vcorr_spearman_from_source sqrt hS, vcorr_spearman_from_source sqrt hS,
+    vrank_strictMono f hf, vrank_strictMono g hg, List.length_map]
+
+theorem vcorr_present : GenFin.vcorr.parsed = true := rfl
 
 theorem half_life_present : GenFin.half_life.parsed = true ∧ GenFin.half_life.loops = 2 := ⟨rfl, rfl⟩
 
